@@ -36,13 +36,33 @@ def _rule_module(rid):
     raise AnalysisError('no module for rule %s' % rid)
 
 
+_BASE = {}          # rule -> findings on the tree itself (per worker process; the tree does not change during a run)
+_REPOS = {}         # scratch root -> Repo (one load per scratch tree, shared by the rules run on it)
+
+
 def _findings(root, rid):
-    repo = Repo(root)
+    if root == REPO and rid in _BASE:
+        if isinstance(_BASE[rid], Exception):
+            raise _BASE[rid]
+        return _BASE[rid]
+    if root not in _REPOS:
+        if len(_REPOS) > 2:
+            _REPOS.clear()
+        _REPOS[root] = Repo(root)
+    repo = _REPOS[root]
     mod = importlib.import_module(_rule_module(rid))
-    res = mod.run(repo)
-    res.check_floor()
-    res.check_opaque(repo)
-    return {f.key: f for f in res.findings}
+    try:
+        res = mod.run(repo)
+        res.check_floor()
+        res.check_opaque(repo)
+    except AnalysisError as exc:
+        if root == REPO:
+            _BASE[rid] = exc
+        raise
+    out = {f.key: f for f in res.findings}
+    if root == REPO:
+        _BASE[rid] = out
+    return out
 
 
 def _run_entry(entry):
